@@ -1624,3 +1624,94 @@ func PinLocals(p *load.Program, name func(*ssa.Function) string, overlay map[str
 	}
 	return out, notes
 }
+
+// SplitCaseOr rewrites, in tagless switches, a clause `case a || b, c:` into `case a: fallthrough; case b:
+// fallthrough; case c:` followed by the original body. Evaluation order and short-circuiting are the
+// same (the conditions are tried in order and the first true one enters the body), so behaviour is not
+// changed; what changes is that each condition gets its own branch in the SSA form instead of feeding a
+// boolean phi, which is the shape the rules read ("the true edge of found(K)").
+func SplitCaseOr(p *load.Program, overlay map[string][]byte) (map[string][]byte, []string) {
+	out := map[string][]byte{}
+	var notes []string
+	src := func(file string) []byte {
+		if b, ok := overlay[file]; ok {
+			return b
+		}
+		b, _ := readFile(file)
+		return b
+	}
+	for _, pk := range p.Closure {
+		for _, f := range pk.Syntax {
+			file := p.Fset.Position(f.Pos()).Filename
+			if strings.HasSuffix(file, "_test.go") {
+				continue
+			}
+			type repl struct {
+				from, to int
+				text     string
+			}
+			var repls []repl
+			b := src(file)
+			text := func(n ast.Node) string {
+				return string(b[p.Fset.Position(n.Pos()).Offset:p.Fset.Position(n.End()).Offset])
+			}
+			ast.Inspect(f, func(n ast.Node) bool {
+				sw, ok := n.(*ast.SwitchStmt)
+				if !ok || sw.Tag != nil {
+					return true
+				}
+				for _, st := range sw.Body.List {
+					cc, ok := st.(*ast.CaseClause)
+					if !ok || len(cc.List) == 0 {
+						continue
+					}
+					var parts []string
+					var flat func(e ast.Expr)
+					flat = func(e ast.Expr) {
+						if be, ok := e.(*ast.BinaryExpr); ok && be.Op == token.LOR {
+							flat(be.X)
+							flat(be.Y)
+							return
+						}
+						if pe, ok := e.(*ast.ParenExpr); ok {
+							if be, ok := pe.X.(*ast.BinaryExpr); ok && be.Op == token.LOR {
+								flat(be)
+								return
+							}
+						}
+						parts = append(parts, text(e))
+					}
+					for _, e := range cc.List {
+						flat(e)
+					}
+					if len(parts) < 2 {
+						continue
+					}
+					var sb strings.Builder
+					for i, pt := range parts {
+						sb.WriteString("case " + pt + ":")
+						if i < len(parts)-1 {
+							sb.WriteString(" fallthrough\n")
+						}
+					}
+					repls = append(repls, repl{p.Fset.Position(cc.Case).Offset, p.Fset.Position(cc.Colon).Offset + 1, sb.String()})
+					notes = append(notes, fmt.Sprintf("split `case a || b` into fallthrough cases at %s (analysis only)", p.Fset.Position(cc.Case)))
+				}
+				return true
+			})
+			if len(repls) == 0 {
+				continue
+			}
+			nb := append([]byte(nil), b...)
+			sort.Slice(repls, func(i, j int) bool { return repls[i].from > repls[j].from })
+			for _, r := range repls {
+				if r.from < 0 || r.to > len(nb) || r.from > r.to {
+					continue
+				}
+				nb = append(nb[:r.from], append([]byte(r.text), nb[r.to:]...)...)
+			}
+			out[file] = nb
+		}
+	}
+	return out, notes
+}
